@@ -16,7 +16,11 @@ RULE = ("1-3 parameters (bool/int/float/str with every width/sign suffix: [u]int
         "declaration followed by 0-6 typed/untyped modifications, interleaved; values from a boundary grid (0, -0.0, +-1, "
         "large, false, '', none); modification units absent / identical / same dimension (prefixed, compound, custom $unit) "
         "/ other dimension / a unit on a unit-less definition; injected: type change, assignment after !constant, assignment to an undefined path, declared "
-        "but never assigned. non-trivial = at least two modifications of one parameter or a unit conversion or an "
+        "but never assigned. Further streams: (clauses) the modifications sit inside `@case true/false ... [@else ...] @end` "
+        "clauses after 0-150 earlier clause keywords, optionally cut into a chain of parses on one environment, judged "
+        "against the specification on the effective lines (selected bodies count at the clause's indentation); "
+        "(chain-of-parses) programs cut into 2-3 texts parsed with DIP(env), model and specification evaluated on every "
+        "prefix. A returned environment that cannot be read counts as 'envbroken', not as a failed parse. non-trivial = at least two modifications of one parameter or a unit conversion or an "
         "injected error; distinct = the text")
 ASSUMPTIONS = H.ASSUMPTIONS + [
     "a numeric definition without unit is dimensionless: a later assignment with a unit is an assignment in another "
@@ -25,6 +29,10 @@ ASSUMPTIONS = H.ASSUMPTIONS + [
     "modification line has a value; a unit behind a bool/str value is an error (repaired in 7e9dc17, injected class "
     "unit-on-nonnumeric)",
     "`!constant` is written directly below the first occurrence of the parameter it protects",
+    "clause conditions are the literals true/false, every clause is closed by @end at the indentation of its @case and "
+    "its body is one level of lines; what a clause means in general is the subject of C15 and not part of the Lean model "
+    "here (the model is not asked in the clause stream)",
+    "in a chain of parses every DIP object is kept alive: DIP names its sources by id(self), a reused id collides",
     "unit conversion itself (magnitudes, dimension test) is the subject of C04 and enters as a parameter read from the "
     "live registry; an int parameter converted into its unit is compared numerically (the code stores a float)",
 ]
@@ -331,6 +339,7 @@ def render_program(rng, params, order, inj):
                 p = params[ev[1]]
                 first_order.append([".".join(p.path), p.ty, p.prec, p.uns, p.unit, state[".".join(p.path)]["value"]])
         expected = first_order
+    render_program.last_text_lines = text
     return "\n".join(text), lines, expected, features
 
 
@@ -348,6 +357,8 @@ def last_literal_class(v):
 
 def signature(c, impl, spec):
     feats = c.get("features", set())
+    if impl == "envbroken":
+        return "c14:%s:returned-environment-without-value" % c.get("stream", "chain")
     if isinstance(spec, str) and not isinstance(impl, str):
         for f in ("type-change", "other-dimension", "unit-on-unitless", "unit-on-nonnumeric", "constant", "undefined", "never-assigned"):
             if f in feats:
@@ -397,6 +408,275 @@ CORPUS = [
 ]
 
 
+# ---------------------------------------------------------------- clauses and chains of parses
+def conv_exact(p_unit, unit, val):
+    """value written in `unit` -> the definition's unit (exact); 'err' for another dimension / no unit to convert into"""
+    if val is None:
+        return val
+    if unit is None or unit == p_unit:
+        return val
+    if p_unit is None:
+        return "err"
+    rows = {r[0]: r for r in H.unit_rows([unit, p_unit])}
+    if unit not in rows or p_unit not in rows or rows[unit][3] != rows[p_unit][3]:
+        return "err"
+    f = Fraction(int(rows[unit][1]), int(rows[unit][2])) / Fraction(int(rows[p_unit][1]), int(rows[p_unit][2]))
+
+    def m(x):
+        return [m(y) for y in x] if isinstance(x, list) else x * f
+    return m(val)
+
+
+def gen_clause_program(rng):
+    """Definitions/declarations, then modifications that sit inside `@case true/false … [@else …] @end` clauses, after
+    0…150 earlier clause keywords (the clause counter is never reset: it also runs on through a chain of parses on
+    one environment).  Returns (stages, lines per stage, expected, features)."""
+    depth = rng.choice([0, 0, 1, 2])
+    groups = [rng.choice(COMP) for _ in range(depth)]
+    text, lines = [H.UNIT_PREAMBLE], [[0, "", ["skip"]]]
+    ind = 0
+    for g in groups:
+        text.append(" " * ind + g)
+        lines.append([ind, g, ["group"]])
+        ind += rng.randint(1, 5)
+    staged = depth == 0 and rng.random() < 0.5
+    cuts = []
+    feats = set()
+    params, state, used = [], {}, set()
+    for _ in range(rng.choice([1, 1, 2, 3])):
+        nm = rng.choice(["a", "b", "size", "flag", "name", "n", "t0"])
+        if nm in used:
+            continue
+        used.add(nm)
+        p = Param(rng, groups + [nm])
+        p.leaf = nm
+        if staged:
+            p.declared = False
+        params.append(p)
+        head = H.sp(rng) + p.kw + p.dims_text
+        if p.declared:
+            if p.unit:
+                head += H.sp(rng) + p.unit
+            text.append(" " * ind + nm + head)
+            lines.append([ind, nm, ["decl", p.ty, p.prec, p.uns, p.dims, p.unit]])
+            state[nm] = "undef"
+        else:
+            lit, val = gen_value(rng, p.ty, p.shape)
+            head += rng.choice([" = ", "=", "  =  "]) + lit + ((H.sp(rng) + p.unit) if p.unit else "")
+            text.append(" " * ind + nm + head + H.comment(rng, 0.2))
+            lines.append([ind, nm, ["defn", p.ty, p.prec, p.uns, p.dims, p.unit, H.to_json_val(val)]])
+            state[nm] = val
+    error = [False]
+
+    padno = [0]
+
+    def pad(n):
+        for _ in range(n):
+            i = padno[0]
+            padno[0] += 1
+            w = rng.randint(1, 4)
+            text.append(" " * ind + "@case false")
+            lines.append([ind, "", ["skip"]])
+            text.append(" " * (ind + w) + "dummy%d int = %d" % (i, i))
+            lines.append([ind, "", ["skip"]])
+            if rng.random() < 0.2:
+                text.append(" " * ind + "@else")
+                lines.append([ind, "", ["skip"]])
+                text.append(" " * (ind + w) + "other%d bool = false" % i)
+                lines.append([ind, "other%d" % i, ["defn", "bool", None, None, None, None, H.to_json_val(False)]])
+                state["other%d" % i] = False
+                order.append("other%d" % i)
+            text.append(" " * ind + "@end")
+            lines.append([ind, "", ["skip"]])
+
+    order = [p.leaf for p in params]
+
+    def body(applied, w):
+        for _ in range(rng.choice([1, 1, 2, 3])):
+            p = rng.choice(params)
+            lit, val = gen_value(rng, p.ty, p.shape)
+            typed = rng.random() < 0.35
+            unit = None
+            if p.unit and val is not None and rng.random() < 0.7:
+                unit = rng.choice(H.LIN_UNITS[p.fam])
+                if rng.random() < 0.08:
+                    unit = rng.choice(H.LIN_UNITS[rng.choice([f for f in sorted(H.LIN_UNITS) if f != p.fam])])
+                    feats.add("other-dimension-in-clause")
+            mprec = muns = None
+            if typed:
+                kw, mprec, muns = H.gen_type(rng, p.ty)
+                head = H.sp(rng) + kw + p.dims_text + rng.choice([" = ", "="]) + lit
+            else:
+                head = rng.choice([" = ", " =", "  =  "]) + lit
+            if unit:
+                head += H.sp(rng) + unit
+            text.append(" " * (ind + w) + p.leaf + head + H.comment(rng, 0.2))
+            if applied:
+                lines.append([ind, p.leaf, ["assign", p.ty if typed else None, unit, H.to_json_val(val), mprec, muns, p.dims]])
+                nv = conv_exact(p.unit, unit, val)
+                if nv == "err":
+                    error[0] = True
+                else:
+                    state[p.leaf] = nv
+            else:
+                lines.append([ind, "", ["skip"]])
+
+    npad = rng.choice([0, 1, 3, 4, 5, 6, 12, 40])
+    pad(npad)
+    if npad >= 5:
+        feats.add("clause-number>=10")
+    if npad >= 40:
+        feats.add("clause-number>=100")
+    if staged:
+        cuts.append(len(text))
+        pad(rng.choice([0, 2, 5]))
+    for _ in range(rng.choice([1, 1, 2, 3])):
+        w = rng.randint(1, 5)
+        sel = rng.random() < 0.6
+        text.append(" " * ind + "@case " + ("true" if sel else "false") + H.comment(rng, 0.15))
+        lines.append([ind, "", ["skip"]])
+        body(sel, w)
+        if rng.random() < 0.4:
+            text.append(" " * ind + "@else")
+            lines.append([ind, "", ["skip"]])
+            body(not sel, w)
+        text.append(" " * ind + "@end")
+        lines.append([ind, "", ["skip"]])
+        feats.add("assignment-in-selected-clause" if sel else "assignment-in-unselected-clause")
+        if staged and rng.random() < 0.4:
+            cuts.append(len(text))
+    if any(state[p.leaf] == "undef" for p in params):
+        error[0] = True
+        feats.add("declared-never-effectively-assigned")
+    if error[0]:
+        expected = "err"
+    else:
+        expected = []
+        for nm in order:
+            q = next((x for x in params if x.leaf == nm), None)
+            if q is None:
+                expected.append([".".join(groups + [nm]), "bool", None, None, None, False])
+            else:
+                expected.append([".".join(q.path), q.ty, q.prec, q.uns, q.unit, state[nm]])
+    # cut into stages (a chain of parses on one environment)
+    bounds = [0] + sorted(set(c for c in cuts if 0 < c < len(text))) + [len(text)]
+    stages = [("\n".join(text[a:b]), lines[a:b]) for a, b in zip(bounds, bounds[1:])]
+    if len(stages) > 1:
+        feats.add("chain-of-parses")
+    return stages, expected, feats
+
+
+def impl_run_staged(stage_texts):
+    from scinumtools.dip import DIP
+    env = None
+    keep = []      # DIP names itself by id(self): keep every parser of the chain alive so that no id is reused
+    try:
+        for t in stage_texts:
+            p = DIP(env) if env is not None else DIP()
+            keep.append(p)
+            p.add_string(t)
+            env = p.parse()
+    except Exception:
+        return "err"
+    return H.read_env(env)
+
+
+def clause_stream(ctx, n):
+    """real code vs the Lean specification on the effective line sequence (selected clause bodies count as lines at
+    the clause's own indentation, unselected ones and the clause keywords as nothing); every stage of a chain of
+    parses must succeed for the chain to succeed.  The Lean *model* does not describe @case (C15): it is not asked."""
+    progs = [gen_clause_program(ctx.rng) for _ in range(n)]
+    reqs, owner = [], []
+    for i, (stages, expected, feats) in enumerate(progs):
+        acc = []
+        for k, (t, ls) in enumerate(stages):
+            acc += ls
+            reqs.append({"lines": [[l[0], l[1], H.driver_payload(l[2])] for l in acc],
+                         "units": H.unit_rows(H.units_in(acc) | {"m"}, H.UNIT_PREAMBLE)})
+            owner.append(i)
+    res = ctx.driver.ask_many(reqs)
+    per = {}
+    for o, r in zip(owner, res):
+        per.setdefault(o, []).append(r)
+    for i, (stages, expected, feats) in enumerate(progs):
+        texts = [t for t, _ in stages]
+        impl = impl_run_staged(texts)
+        ctx.count("stream.clauses")
+        for f in feats:
+            ctx.count("feature." + f)
+        ctx.count("impl.err" if isinstance(impl, str) else "impl.ok")
+        ctx.case("\n<<next parse>>\n".join(texts), True, None)
+        replay = {"stream": "clauses", "stages": texts, "text": "\n".join(texts)}
+        specs = []
+        for r in per[i]:
+            specs.append(H.decode_result(r["ok"]["spec"]) if "ok" in r else "driver-error")
+        if "driver-error" in specs or "unsupported" in specs:
+            ctx.disagreement("clauses", replay, "specification not available: %s" % specs[:3])
+            continue
+        spec = "err" if any(isinstance(x, str) for x in specs) else specs[-1]
+        if not H.res_eq_exact(expected, spec):
+            ctx.disagreement("clauses:spec-vs-generator", replay,
+                             "Lean spec %s vs generator %s" % (H.short(H.jsonable(spec)), H.short(H.jsonable(expected))))
+        elif not H.res_eq(impl, spec):
+            c = {"stream": "clauses", "features": feats}
+            ctx.violation(signature(c, impl, spec) + (":clause>=10" if "clause-number>=10" in feats else ""),
+                          "C14: %s | stages=%r" % (H.first_diff(impl, spec), [t[-300:] for t in texts][:3]),
+                          dict(replay, impl=H.jsonable(impl), spec=H.jsonable(spec)))
+
+
+def chain_of_parses_stream(ctx, n):
+    """the programs of the chain stream cut into 2-3 texts parsed one after the other on one environment
+    (`DIP(env)`): parent stack, parameters, units and flags carry over, every stage is validated.  Real code vs
+    Lean model and Lean specification, both evaluated on every prefix of the chain."""
+    progs = []
+    for _ in range(n):
+        params, order, inj = gen_program(ctx.rng)
+        text, lines, expected, feats = render_program(ctx.rng, params, order, inj)
+        tl = list(render_program.last_text_lines)
+        k = len(tl)
+        cuts = sorted(set(ctx.rng.randrange(1, k) for _ in range(ctx.rng.choice([1, 1, 2])))) if k > 1 else []
+        bounds = [0] + cuts + [k]
+        progs.append(([("\n".join(tl[a:b]), lines[a:b]) for a, b in zip(bounds, bounds[1:])], feats))
+    reqs, owner = [], []
+    for i, (stages, feats) in enumerate(progs):
+        acc, acct = [], []
+        for t, ls in stages:
+            acc += ls
+            acct.append(t)
+            reqs.append({"text": "\n".join(acct), "lines": [[l[0], l[1], H.driver_payload(l[2])] for l in acc],
+                         "units": H.unit_rows(H.units_in(acc) | {"m"}, H.UNIT_PREAMBLE)})
+            owner.append(i)
+    res = ctx.driver.ask_many(reqs)
+    per = {}
+    for o, r in zip(owner, res):
+        per.setdefault(o, []).append(r)
+    for i, (stages, feats) in enumerate(progs):
+        texts = [t for t, _ in stages]
+        impl = impl_run_staged(texts)
+        ctx.count("stream.chain-of-parses")
+        ctx.count("impl.err" if isinstance(impl, str) else "impl.ok")
+        ctx.case("\n<<next parse>>\n".join(texts), True, None)
+        replay = {"stream": "chain-of-parses", "stages": texts, "text": "\n".join(texts)}
+        if any("ok" not in r for r in per[i]):
+            ctx.disagreement("chain-of-parses", replay, "driver error")
+            continue
+        specs = [H.decode_result(r["ok"]["spec"]) for r in per[i]]
+        models = [H.decode_result(r["ok"]["model"]) for r in per[i]]
+        spec = "err" if any(isinstance(x, str) for x in specs) else specs[-1]
+        model = "err" if any(isinstance(x, str) for x in models) else models[-1]
+        if "unsupported" in specs or "unsupported" in models:
+            ctx.disagreement("chain-of-parses", replay, "model/spec does not cover a generated input")
+            continue
+        if not H.res_eq(impl, spec):
+            c = {"stream": "chain-of-parses", "features": feats}
+            ctx.violation(signature(c, impl, spec) + ":chain-of-parses",
+                          "C14: %s | stages=%r" % (H.first_diff(impl, spec), [t[-300:] for t in texts][:3]),
+                          dict(replay, impl=H.jsonable(impl), spec=H.jsonable(spec)))
+        if not H.res_eq("err" if impl == "envbroken" else impl, model):
+            ctx.disagreement("chain-of-parses", dict(replay, impl=H.jsonable(impl), model=H.jsonable(model)),
+                             H.first_diff(impl, model))
+
+
 def correspond(ctx):
     thorough = ctx.tier == "thorough"
     rng = ctx.rng
@@ -432,6 +712,8 @@ def correspond(ctx):
         c["features"] = feats
         cases.append(c)
     H.flush(ctx, cases, prop="C14", sig_fn=signature)
+    clause_stream(ctx, 1200 if thorough else 300)
+    chain_of_parses_stream(ctx, 800 if thorough else 200)
 
 
 def replay(ctx, payload):
